@@ -351,7 +351,7 @@ def log_case_coq(c, r, wiring, pnu=False):
     # the same run with the identity wiring, and the ids of the frozen branches (for the conclusion of frozen_flags_wired)
     tmin = min(times)
     ids['__std__'] = ('front std_wirings' + model[len('front ' + wiring_coq(wiring)):],
-                      natl([ids[frozen_name(s, t)] for s, t in zip(sampled, times) if t - tmin > 0]))
+                      '(%s : list nat)' % natl([ids[frozen_name(s, t)] for s, t in zip(sampled, times) if t - tmin > 0]))
     return '(%s, %s)' % (model, logged), ids
 
 # ---------------------------------------------------------------------------------------------------------------
